@@ -8,20 +8,20 @@ DST=/verif/seeded/$NAME
 mkdir -p $DST
 cp $WT/seed/patch.diff $WT/seed/meta.json $DST/ 2>/dev/null
 cp $WT/seed/demo_test.go $DST/demo_test.go.txt 2>/dev/null
-cd $WT && git checkout -q -- . && rm -f pkg/zz_demo_test.go
+cd $WT && git checkout -q -- . && rm -f ${DEMO_DIR:-pkg}/zz_demo_test.go
 rm -rf /tmp/seed-hold-$NAME && mv $WT/seed /tmp/seed-hold-$NAME   # keep the demo out of ./...
 trap "mv /tmp/seed-hold-$NAME $WT/seed 2>/dev/null" EXIT
 echo "== clean tree: demo must pass"
-cp $DST/demo_test.go.txt pkg/zz_demo_test.go
-go test -vet=off -count=1 -run . ./pkg/ 2>&1 | tail -3; CLEAN=${PIPESTATUS[0]}
-rm -f pkg/zz_demo_test.go
+cp $DST/demo_test.go.txt ${DEMO_DIR:-pkg}/zz_demo_test.go
+go test -vet=off -count=1 -run . ./${DEMO_DIR:-pkg}/ 2>&1 | tail -3; CLEAN=${PIPESTATUS[0]}
+rm -f ${DEMO_DIR:-pkg}/zz_demo_test.go
 echo "== patched tree: build + suite must pass, demo must fail"
 git apply $DST/patch.diff || { echo "PATCH DOES NOT APPLY"; exit 3; }
 go build ./... || { echo "BUILD FAILS"; exit 3; }
 go test -vet=off -count=1 ./... 2>&1 | grep -v "no test files" | grep -v "^ok" ; SUITE=${PIPESTATUS[0]}
-cp $DST/demo_test.go.txt pkg/zz_demo_test.go
-go test -vet=off -count=1 -run . ./pkg/ 2>&1 | tail -4; DEMO=${PIPESTATUS[0]}
-rm -f pkg/zz_demo_test.go
+cp $DST/demo_test.go.txt ${DEMO_DIR:-pkg}/zz_demo_test.go
+go test -vet=off -count=1 -run . ./${DEMO_DIR:-pkg}/ 2>&1 | tail -4; DEMO=${PIPESTATUS[0]}
+rm -f ${DEMO_DIR:-pkg}/zz_demo_test.go
 git checkout -q -- .
 echo "clean_demo_rc=$CLEAN suite_rc=$SUITE patched_demo_rc=$DEMO"
 echo "== quick check in /repo with the patch"
